@@ -968,6 +968,7 @@ pub fn main_lib(backend: Backend, seed: u64) {
                 for l in c.out.drain(..) {
                     writeln!(w, "{l}").unwrap();
                 }
+                w.flush().unwrap();
             }
         }
     }
